@@ -1,6 +1,10 @@
 package main
 
 import (
+	"bytes"
+	"net/http"
+	"net/http/httptest"
+	"strconv"
 	"net/url"
 	"unicode/utf8"
 	"context"
@@ -381,7 +385,51 @@ func validUTF8(s string) bool {
 	return true
 }
 
+// detailsCodec: the X-GRPC-Details headers of a unary error reply, written by the real handleMethod and read back by
+// the real statFromResponse, against the model's unpadded base64 (C02_details_b64_roundtrip).
+func detailsCodec(r *Run) {
+	rng := r.Rng.Fork("detailsCodec")
+	for i := 0; i < r.Budget(120, 3000); i++ {
+		val := rng.Bytes(rng.Intn(10))
+		if rng.Chance(20) {
+			val = append(val, 0x00, 0x0a, 0xff)
+		}
+		det := &anypb.Any{TypeUrl: "t.test/x" + strconv.Itoa(rng.Intn(3)), Value: val}
+		raw, _ := proto.MarshalOptions{Deterministic: true}.Marshal(det)
+		svr := &scriptServer{unary: func(ctx context.Context, req *Msg) (*Msg, error) {
+			return nil, status.FromProto(&spb.Status{Code: 9, Message: "m", Details: []*anypb.Any{det}}).Err()
+		}}
+		hs := httpgrpc.NewServer()
+		grpchantesting.RegisterTestServiceServer(hs, svr)
+		body, _ := proto.Marshal(&Msg{})
+		req := httptest.NewRequest("POST", "http://d.test"+mUnary, bytes.NewReader(body))
+		req.Header.Set("Content-Type", httpgrpc.UnaryRpcContentType_V1)
+		rec := httptest.NewRecorder()
+		hs.ServeHTTP(rec, req)
+		hv := rec.Header().Values("X-Grpc-Details")
+		c := map[string]interface{}{"op": "details-codec", "detail_hex": hexOrDash(raw)}
+		enc := ""
+		if len(hv) == 1 {
+			enc = hv[0]
+		}
+		r.Op(sprintf("C03 b64rawenc %s", hexOrDash(raw)), hexOrDash([]byte(enc)))
+		st := httpgrpc.VerifStatFromResponse(&http.Response{StatusCode: rec.Code, Status: "x", Header: rec.Header()})
+		ans := "error"
+		if st != nil && len(st.Proto().Details) == 1 {
+			back, _ := proto.MarshalOptions{Deterministic: true}.Marshal(st.Proto().Details[0])
+			ans = hexOrDash(back)
+		}
+		r.Op(sprintf("C03 b64rawdec %s", hexOrDash([]byte(enc))), ans)
+		r.Eval(sprintf("details %x", raw), len(raw)%3 != 0)
+		r.Count("unit:details-b64")
+		if ans != hexOrDash(raw) {
+			r.Violate("http/status/unary/detail-not-byte-exact", "0..n error details of any message type … equals the status the server handler returned", sprintf("detail %x came back as %s (header %q)", raw, ans, enc), c, ans)
+		}
+	}
+}
+
 func extraC02(r *Run) {
+	detailsCodec(r)
 	rng := r.Rng.Fork("extraC02")
 	msgs := statusStrings()
 	codeSet := []codes.Code{1, 2, 3, 4, 5, 6, 7, 8, 9, 10, 11, 12, 13, 14, 15, 16, 17, 99, 1 << 20, 1 << 31, 1<<32 - 1, 1<<32 - 2}
